@@ -878,7 +878,7 @@ class SizedReader:
             if pos:
                 chunks.append(data[:pos])
                 remainder = data[pos:]
-                self.buffer += remainder
+                self.buffer = remainder + self.buffer
                 self.bytes_read -= len(remainder)
                 break
             else:
